@@ -566,6 +566,15 @@ def run(ctx, chk):
             fa, fb = side_form(o[1][2]), side_form(o[1][3])
             if fa and fb and {fa[0], fb[0]} == {"idx", "len"}:
                 return "R", o
+        if o[0] == "call":
+            # a comparison of texts (== / != between strings): the prompt would depend on what the instruction says
+            ct = o[1]
+            nm = ct[1].get("def") or ""
+            if is_str_eq(drv, ct) or (re.search(r"(::|>)ne$", nm) and is_str_eq(drv, (ct[0], dict(ct[1], **{"def": nm[:-2] + "eq"})) + tuple(ct[2:]))):
+                # .. evaluated in the iteration itself (a test made once before the loop says nothing about the
+                # instruction about to execute)
+                if len(o) > 2 and o[2] in body and cfg.dominates(head, o[2]):
+                    return "H", o
         return None, o
 
     r_forms = []
@@ -586,6 +595,10 @@ def run(ctx, chk):
             count += 1
         if t[0] == "switch":
             atom, o = classify(b)
+            if atom == "H":
+                atom = None
+            if atom is None and len([s_ for s_ in cfg.succ[b] if s_ in region or s_ == pb]) > 1:
+                unknown_tests.add(b)
             if atom is not None:
                 v = asg[atom]
                 if atom == "R":
@@ -609,11 +622,14 @@ def run(ctx, chk):
 
     table_ok = True
     rows = 0
+    unknown_tests = set()   # switches crossed by the walk whose meaning the rule does not know
     for iv in (False, True):
         for tv in (False, True):
             for rvv in (False, True):
                 asg = {"I": iv, "T": tv, "R": rvv}
+                unknown_tests.clear()
                 counts = set(walk(head, asg, 0, frozenset()))
+                crossed = set(unknown_tests)
                 want = 1 if ((iv or tv) and rvv) else 0
                 rows += 1
                 unit = f"I={int(iv)},T={int(tv)},R={int(rvv)}"
@@ -621,6 +637,10 @@ def run(ctx, chk):
                     chk.ok("C20.R4", f"row:{unit}", f"{want} prompt(s) on every path")
                 elif None in counts:
                     chk.undecided_("C20.R4", f"row:{unit}", "a cycle lies between the loop head and the interpreter call")
+                    table_ok = False
+                elif len(counts) > 1 and crossed:
+                    # both outcomes are possible only because a test the rule cannot read was followed both ways
+                    chk.undecided_("C20.R4", f"row:{unit}", f"{sorted(counts)} prompts depending on a test the rule does not classify (bb{sorted(crossed)[0]})")
                     table_ok = False
                 else:
                     table_ok = False
@@ -634,8 +654,23 @@ def run(ctx, chk):
         a, o = classify(b)
         if a:
             atoms.setdefault(a, []).append((b, o))
+    uic_blocks = [b for b in region if M.term(drv["blocks"][b])[0] == "call" and (M.term(drv["blocks"][b])[1].get("def") or "").endswith("user_interface")]
+    guards = set()
+    for b in uic_blocks:
+        guards |= set(cfg.control_deps.get(b, ()))
+    unread = [b for b in sw_blocks if b in guards and classify(b)[0] is None]
+    for b, o in atoms.get("H", []):
+        if b in guards:
+            chk.violation("C20.R4", "CMDDriver::run", "prompt-depends-on-instruction-text",
+                          "whether the prompt is shown depends on a comparison of texts (the instruction's own text): an instruction the user wrote with that text "
+                          "(e.g. a hlt of the program itself) is executed without a prompt, although exactly one prompt precedes each executed instruction while stepping",
+                          f"{where}:{line_of(drv, b)}", witness="start: mov ax,1 / hlt, run with -i")
     for a in ("I", "T", "R"):
-        if a not in atoms:
+        if a not in atoms and unread:
+            chk.undecided_("C20.R4", f"atom:{a}", f"no test of this kind was recognised, and the prompt is guarded by a test the rule does not classify (bb{unread[0]})")
+        elif a == "R" and any(b in guards for b, _ in atoms.get("H", [])):
+            pass   # reported above: the exclusion is made on the instruction's text instead of its index
+        elif a not in atoms:
             chk.violation("C20.R4", "CMDDriver::run", f"atom-{a}-missing",
                           {"I": "the stepping region never tests the interpreted switch", "T": "the stepping region never tests the trap flag",
                            "R": "the stepping region never excludes the appended hlt"}[a], where)
